@@ -27,12 +27,14 @@ FLOORS = {
               "counters": {"outputs_with_entities": 800, "via_macro": 100, "via_setblock": 50,
                            "via_super_or_self": 100, "via_include": 100, "via_import_macro": 50,
                            "fragment_through_filter": 30, "plain_tilde_fragment": 30,
-                           "local_autoescape_block_renders": 500}},
+                           "local_autoescape_block_renders": 500,
+                           "loop_exit_through_inner_autoescape_block": 60}},
     "thorough": {"evaluations": 50000, "distinct": 6000,
                  "counters": {"outputs_with_entities": 16000, "via_macro": 2000, "via_setblock": 1000,
                               "via_super_or_self": 2000, "via_include": 2000, "via_import_macro": 1000,
                               "fragment_through_filter": 600, "plain_tilde_fragment": 600,
-                              "local_autoescape_block_renders": 10000}},
+                              "local_autoescape_block_renders": 10000,
+                              "loop_exit_through_inner_autoescape_block": 1200}},
 }
 
 # every value has a raw metacharacter (over-escaping shows) AND entity-like text
@@ -111,11 +113,47 @@ def localize(body, flag, split_macros=False):
     return out
 
 
-def render_local(case, runtime_flag, is_async):
+def _map_bodies(st, f):
+    k = st[0]
+    st = list(st)
+    if k == "if":
+        st[1] = [[c, f(b)] for c, b in st[1]]
+        st[2] = None if st[2] is None else f(st[2])
+    elif k == "for":
+        st[3] = f(st[3])
+        st[4] = None if st[4] is None else f(st[4])
+    elif k in ("setblock", "with", "block", "autoescape"):
+        st[2] = f(st[2])
+    elif k in ("macro", "callblock", "filterblock"):
+        st[3] = f(st[3])
+    return st
+
+
+def wrap_exits(body, seen):
+    """Every `{% if c %}{% break|continue %}{% endif %}` gets its own inner
+    `{% autoescape false %}` region that prints nothing: the loop is then left THROUGH an
+    autoescape block, and the enclosing region must still escape what follows."""
+    out = []
+    for st in body:
+        if (st[0] == "if" and st[2] is None and len(st[1]) == 1
+                and len(st[1][0][1]) == 1 and st[1][0][1][0][0] in ("break", "continue")):
+            seen.append(1)
+            # the condition is evaluated outside (an autoescape block is a scope; reading program
+            # variables from a new nested scope would run into the recorded C03 late-store finding)
+            out.append(["set", "xq", st[1][0][0]])
+            out.append(["autoescape", ["const", False], [["if", [[["name", "xq"], st[1][0][1]]], None]]])
+        else:
+            out.append(_map_bodies(st, lambda b: wrap_exits(b, seen)))
+    return out
+
+
+def render_local(case, runtime_flag, is_async, seen=None):
     """Environment autoescape OFF, escaping switched on inside the templates."""
     flag = ["name", "aeflag"] if runtime_flag else ["const", True]
     c2 = dict(case)
-    c2["asts"] = {n: localize(b, flag, case["kind"] == "inherit") for n, b in case["asts"].items()}
+    seen = [] if seen is None else seen
+    c2["asts"] = {n: localize(wrap_exits(b, seen), flag, case["kind"] == "inherit")
+                  for n, b in case["asts"].items()}
     env = corpus.make_env(c2, autoescape=False, enable_async=is_async)
 
     def f():
@@ -148,9 +186,12 @@ def check_case(ctx, case, is_async):
         bad = f"on {on!r} / off {off!r}"
     if not bad and on.ok and off.ok and case["kind"] in ("stmt", "expr", "loop", "inherit"):
         for runtime_flag in (False, True):
-            lo, c2 = render_local(case, runtime_flag, is_async)
+            seen = []
+            lo, c2 = render_local(case, runtime_flag, is_async, seen)
             ctx.ev()
             ctx.count("local_autoescape_block_renders")
+            if seen:
+                ctx.count("loop_exit_through_inner_autoescape_block")
             ok = lo.ok and html.unescape(lo.value) == off.value
             if not ok:
                 mode = "runtime-flag" if runtime_flag else "static"
